@@ -440,7 +440,7 @@ func runCons(t *testing.T, tk []string) string {
 		log.Add("Re:%d", p)
 	}
 	empty := 0
-	for i := 0; empty < 4 && i < 4000; i++ {
+	for i := 0; empty < 4 && i < 400; i++ {
 		if poll(400*time.Millisecond) == 0 {
 			empty++
 		} else {
